@@ -648,9 +648,13 @@ impl Sim {
     }
     /// Earliest pending select deadline over all live workers.
     pub fn next_timeout(&self) -> Option<u64> {
+        // a deadline further away than 2^30 ms is a "never" sentinel (`! [100000000000000000000000, p]`):
+        // the virtual clock does not jump there (it would leave the 32-bit range of the traces), the
+        // process simply stays blocked
         (0..self.nworkers())
             .filter(|w| !self.dead[*w])
             .filter_map(|w| self.workers[w].next_timeout_ms())
+            .filter(|t| *t <= self.now + (1u64 << 30))
             .min()
     }
     /// Nothing can happen without a clock advance.
